@@ -1,4 +1,5 @@
 import PdfModel.Lemmas.Cache
+import PdfModel.Lemmas.CacheDocWF
 
 /-!
 # C12 — caches are invisible: cached and uncached documents answer identically
@@ -197,6 +198,45 @@ example : ∀ p ∈ demoCalls, FineCall demoFilt p := by
 example : outputs demo Cfg.both 4 demoCalls
     = [.ok 100, .ok 201, .err 7, .ok 100, .ok 2001, .ok 0, .ok 101] := by decide
 example : outputs demo Cfg.none 4 demoCalls = outputs demo Cfg.both 4 demoCalls := by decide
+
+/-! ## The generated documents of the correspondence check lie in the domain of the theorems
+
+`CacheDoc.okRanks` is the decidable check the model driver evaluates on every generated description
+(stream `c12.domain`); it is sound: -/
+
+/-- a description that passes `okRanks` gives a document with well-founded typed loads (hypothesis `WF`
+    of the theorems above, with the explicit rank function `rk`) and bounded ranks -/
+theorem generated_doc_wf (d : CacheDoc.Desc) (h : CacheDoc.okRanks d = true) :
+    WF (CacheDoc.toDoc d) (CacheDoc.filtersOf d) (CacheDoc.rk d) ∧ ∀ r, CacheDoc.rk d r < d.objs.length + 2 :=
+  ⟨CacheDoc.wf_of_okRanks h, CacheDoc.rk_lt d⟩
+
+/-- **C12 on the generated documents.** For every description that passes the check, every cache
+    configuration and every history of the property's call kinds (typed loads, raw resolves, `Stream::data`,
+    `raw_image_data`, `image_data`, page look-ups): the answers are those of the uncached document. -/
+theorem generated_cache_transparent (d : CacheDoc.Desc) (h : CacheDoc.okRanks d = true) (cfg : Cfg)
+    (ht : cfg.trustErr = false) (root : CacheDoc.R) (calls : List CacheDoc.CallK) (fuel : Nat)
+    (hf : d.objs.length + 2 ≤ fuel) :
+    outputs (CacheDoc.toDoc d) cfg fuel (calls.map (·.prog d root))
+      = outputs (CacheDoc.toDoc d) Cfg.none fuel (calls.map (·.prog d root)) := by
+  refine cache_transparent_partial (CacheDoc.wf_of_okRanks h) (CacheDoc.rk_lt d) cfg ht fuel hf _ ?_
+  intro p hp
+  simp only [List.mem_map] at hp
+  obtain ⟨c, _, rfl⟩ := hp
+  exact CacheDoc.callK_fine h root c
+
+/-- a description with an object stream, a three-level page tree, streams and an image passes the check -/
+def sampleDesc : CacheDoc.Desc :=
+  ⟨12, false,
+   [⟨1, .cat 2, .inStm 9 0⟩, ⟨2, .pages 0 [3] 2, .direct⟩, ⟨3, .pages 2 [4, 5] 2, .inStm 9 1⟩,
+    ⟨4, .page 3, .direct⟩, ⟨5, .page 3, .inStm 9 2⟩, ⟨6, .int 1006, .direct⟩,
+    ⟨7, .stream [1, 4] ["a", "b", "c"], .direct⟩, ⟨8, .image [4] ["x", "y"], .direct⟩,
+    ⟨9, .objstm 3 [4] ["p", "q"], .direct⟩]⟩
+
+example : CacheDoc.okRanks sampleDesc = true := by decide +kernel
+
+/-- … and one whose /Parent links form a cycle does not -/
+example : CacheDoc.okRanks ⟨6, true, [⟨2, .pages 4 [4] 1, .direct⟩, ⟨4, .pages 2 [] 0, .direct⟩]⟩ = false := by
+  decide +kernel
 
 /-! ## What the code does not satisfy, and what it did not satisfy before the repairs -/
 
